@@ -99,6 +99,18 @@ def s_hash(F, res):
             o = mir.provenance(e, du2, s["rv"]["op"]) if s["rv"]["k"] == "use" else []
             # fn_pat None: whichever function of the crate computes the field (free function or method, any parameter order)
             calls = [x for x in o if x.kind == "call" and ((fn_pat in x.callee) if fn_pat else (x.callee in F.fns and F.fns[x.callee]["crate"] == "tx3_cardano"))]
+            if fn_pat and not calls:
+                # the `.map(|aux| aux.compute_hash())` sits in a small helper of the crate (`auxiliary_data_hash(aux.as_ref())`):
+                # the helper's own body must be that map over its parameter, and its argument here the shipped value
+                for x in o:
+                    h = F.fns.get(x.callee) if x.kind == "call" else None
+                    if h is None or h["crate"] != "tx3_cardano" or len(h["blocks"]) > 40:
+                        continue
+                    dh = mir.DefUse(h)
+                    inner = [y for y in mir.provenance(h, dh, {"l": 0, "p": []}) if y.kind == "call" and fn_pat in y.callee]
+                    if inner and all(z.kind == "arg" for z in mir.provenance(h, dh, inner[0].term["args"][0], transparent_extra=("std::option::Option::<T>::as_ref",))) and \
+                            any((t_.get("callee") or "").endswith("::compute_hash") for c_ in [h] + [g_ for g_ in F.fns.values() if g_.get("owner") == h["path"]] for _, t_ in mir.calls(c_)):
+                        calls = [x]
             if not calls:
                 good = False
                 continue
@@ -174,10 +186,34 @@ def s_present(F, res):
     or the map is the untouched payload of an Option that was produced under the same rule.  A map that was mutated after it
     came out of its Option (amounts folded in that may cancel) can be empty: the body then carries a present-but-empty field."""
     n = 0
+    # helpers that only wrap a map they are handed (`fn post_alonzo_metadata(metadata) -> AuxiliaryData { .. metadata: Some(metadata) .. }`):
+    # the emptiness test belongs to the caller, so the wrap is judged there, with the helper inlined
+    from ..common import callers_index
+    wrappers = set()
+    for p in sorted(F.fns):
+        f = F.fns[p]
+        if f["crate"] != "tx3_cardano" or not p.startswith(CO) or f.get("derived") or f["def_kind"] == "Closure":
+            continue
+        dw = None
+        for bi, si, s in mir.stmts(f):
+            rv = s["rv"]
+            if rv["k"] == "agg" and rv.get("variant") == "Some" and rv.get("adt", "").endswith("Option"):
+                pl = mir.op_place(rv["ops"][0])
+                if pl is not None and not pl["p"] and re.match(r"^std::collections::(BTreeMap|HashMap)<", f["locals"][pl["l"]]):
+                    dw = dw or mir.DefUse(f)
+                    org = mir.provenance(f, dw, rv["ops"][0])
+                    if org and all(o.kind == "arg" and not o.proj for o in org) and callers_index(F).get(p) and len(f["blocks"]) <= 60:
+                        wrappers.add(p)
+
+    def want_w(t, callee):
+        return callee["path"] in wrappers
+    _KEEP_L.append(want_w)
     for p in sorted(F.fns):
         f = F.fns[p]
         if f["crate"] != "tx3_cardano" or not p.startswith(CO) or f.get("derived"):
             continue
+        if wrappers and p not in wrappers and any((t.get("resolved") or t.get("callee")) in wrappers for _, t in mir.calls(f)):
+            f = mir.inline_calls(F, f, want=want_w, depth=2)
         du = None
         cfg = None
         k = 0
@@ -191,6 +227,10 @@ def s_present(F, res):
             ty = f["locals"][pl["l"]]
             if not re.match(r"^std::collections::(BTreeMap|HashMap)<", ty):
                 continue
+            if p in wrappers:
+                o_w = mir.provenance(f, mir.DefUse(f), rv["ops"][0])
+                if o_w and all(o.kind == "arg" and not o.proj for o in o_w):
+                    continue       # judged in the callers
             n += 1
             k += 1
             du = du or mir.DefUse(f)
